@@ -97,6 +97,7 @@ func (w *txWorld) blockStreamN(rng *rand.Rand, cases []txCase, junk []cand, othe
 		w.more = append(w.more, sg)
 		signers = append(signers, sg)
 	}
+	w.topUp(signers)
 	rng.Shuffle(len(signers), func(i, j int) { signers[i], signers[j] = signers[j], signers[i] })
 	nTx := 2 + rng.Intn(2)
 	var txs []blknTx
@@ -116,7 +117,7 @@ func (w *txWorld) blockStreamN(rng *rand.Rand, cases []txCase, junk []cand, othe
 			}
 			me := x.AccAddress().String()
 			cs := []cand{{"signer", me}, {"signer", me}, {"signer", me}, {"signer-upper", strings.ToUpper(me)}, {"gov", w.gov}, {"GOV-upper", strings.ToUpper(w.gov)},
-				{"other-account", helpers.GenAccAddress().String()}, {"module", other}, junk[rng.Intn(len(junk))]}
+				{"other-account", helpers.GenAccAddress().String()}, {"other-account-upper", strings.ToUpper(helpers.GenAccAddress().String())}, {"module", other}, junk[rng.Intn(len(junk))]}
 			c := cs[rng.Intn(len(cs))]
 			if forceSigner {
 				c = cs[3*rng.Intn(2)]
@@ -249,6 +250,7 @@ func (w *txWorld) blockStreamN(rng *rand.Rand, cases []txCase, junk []cand, othe
 			ob = "rejected:basic"
 		case seq1 == t.seq0[0]:
 			ob = "rejected:ante"
+			w.anteCode("blkn", r, len(t.kinds) > 0 && strings.HasPrefix(t.kinds[0], "signer") && (t.shape <= 2 || t.shape == 7))
 		default:
 			ob = "failed"
 			if m := msgIndexRe.FindStringSubmatch(r.Log); m != nil {
